@@ -116,3 +116,798 @@ Proof.
   - rewrite <- E in *. rewrite (walk_back_seg hs l 0 0 fuel S) by (subst; try congruence; lia).
     destruct (fuel - length l); cbn [walk_back isnull Nat.eqb bind]; now rewrite app_nil_r.
 Qed.
+
+(* ---- evaluation of the monadic code *)
+Lemma isnull_false x : x <> 0 -> isnull x = false.
+Proof. intros H. unfold isnull. now apply Nat.eqb_neq. Qed.
+Lemma H_nz hs x : x <> 0 -> H hs x = Ok (hs x).
+Proof. intros Hx. unfold H. now rewrite (proj2 (Nat.eqb_neq x 0) Hx). Qed.
+Lemma set_next_nz hs p v : p <> 0 -> set_next hs p v = Ok (setf hs p (mk_hook v (h_prev (hs p)) (h_in (hs p)))).
+Proof. intros Hx. unfold set_next. now rewrite (proj2 (Nat.eqb_neq p 0) Hx). Qed.
+Lemma set_prev_nz hs p v : p <> 0 -> set_prev hs p v = Ok (setf hs p (mk_hook (h_next (hs p)) v (h_in (hs p)))).
+Proof. intros Hx. unfold set_prev. now rewrite (proj2 (Nat.eqb_neq p 0) Hx). Qed.
+Lemma set_in_nz hs p v : p <> 0 -> set_in hs p v = Ok (setf hs p (mk_hook (h_next (hs p)) (h_prev (hs p)) v)).
+Proof. intros Hx. unfold set_in. now rewrite (proj2 (Nat.eqb_neq p 0) Hx). Qed.
+Lemma setf_same {A} (f : nat -> A) k v : setf f k v k = v.
+Proof. unfold setf. now rewrite Nat.eqb_refl. Qed.
+Lemma setf_other {A} (f : nat -> A) k v j : j <> k -> setf f k v j = f j.
+Proof. intros Hx. unfold setf. now rewrite (proj2 (Nat.eqb_neq j k) Hx). Qed.
+
+Lemma push_front_ok hs L l x :
+  repr hs L l -> x <> 0 -> hs x = hook0 -> ~ In x l ->
+  exists hs' L', push_front hs L x = Ok (hs', L') /\ repr hs' L' (x :: l) /\
+                 (forall y, y <> x -> ~ In y l -> hs' y = hs y).
+Proof.
+  intros (Hf & Hb & S & ND) Hx Hh Hn.
+  unfold push_front. rewrite (isnull_false x Hx). cbn [negb assert bind].
+  rewrite (H_nz hs x Hx). cbn [bind]. rewrite Hh. cbn [hook0 h_in h_next h_prev negb isnull Nat.eqb assert bind].
+  destruct l as [|f r].
+  - cbn [hd last] in Hf, Hb. rewrite Hf. cbn [isnull Nat.eqb bind l_back].
+    rewrite (set_in_nz _ _ _ Hx). cbn [bind]. rewrite Hh. cbn [hook0 h_next h_prev].
+    do 2 eexists. split; [reflexivity|]. split.
+    + repeat split; cbn [l_front l_back hd last seg]; rewrite ?setf_same; cbn; auto.
+      constructor; [intros []|constructor].
+    + intros y Hy _. now apply setf_other.
+  - cbn [hd] in Hf. destruct S as (Hfz & Hfp & Hfi & Hfn & Sr).
+    rewrite Hf. rewrite (isnull_false f Hfz).
+    rewrite (set_next_nz _ _ _ Hx). cbn [bind].
+    rewrite (set_prev_nz _ _ _ Hfz). cbn [bind].
+    rewrite (set_in_nz _ _ _ Hx). cbn [bind l_back].
+    assert (Hxf : x <> f) by (intros ->; apply Hn; now left).
+    assert (Hfx : f <> x) by congruence.
+    do 2 eexists. split; [reflexivity|]. split.
+    + inversion ND as [|? ? Nf NDr]; subst.
+      repeat split; cbn [l_front l_back hd].
+      * rewrite Hb. now rewrite !last_cons.
+      * exact Hx.
+      * rewrite setf_same. cbn. rewrite setf_other, setf_same by exact Hxf. cbn. now rewrite Hh.
+      * rewrite setf_same. reflexivity.
+      * rewrite setf_same. cbn. rewrite setf_other, setf_same by exact Hxf. reflexivity.
+      * exact Hfz.
+      * rewrite setf_other, setf_same by exact Hfx. reflexivity.
+      * rewrite setf_other, setf_same by exact Hfx. cbn. rewrite setf_other by exact Hfx. exact Hfi.
+      * rewrite setf_other, setf_same by exact Hfx. cbn. rewrite setf_other by exact Hfx. exact Hfn.
+      * apply seg_setf_notin; [intros C; apply Hn; now right|].
+        apply seg_setf_notin; [exact Nf|].
+        apply seg_setf_notin; [intros C; apply Hn; now right|]. exact Sr.
+      * constructor; [exact Hn | exact ND].
+    + intros y Hy Hyl. rewrite setf_other by exact Hy.
+      rewrite setf_other by (intros ->; apply Hyl; now left). now rewrite setf_other by exact Hy.
+Qed.
+
+Lemma NoDup_app_snoc {A} (l : list A) x : NoDup l -> ~ In x l -> NoDup (l ++ [x]).
+Proof.
+  induction l as [|a l IH]; intros ND N; cbn [app].
+  - constructor; [intros []|constructor].
+  - inversion ND; subst. constructor.
+    + intros C. apply in_app_or in C. destruct C as [C|[C|[]]]; [contradiction | subst; apply N; now left].
+    + apply IH; [assumption | intros C; apply N; now right].
+Qed.
+Lemma NoDup_app_comm_parts {A} (l1 l2 : list A) : NoDup (l1 ++ l2) -> NoDup l1 /\ NoDup l2 /\ (forall x, In x l1 -> ~ In x l2).
+Proof.
+  induction l1 as [|a l1 IH]; cbn [app]; intros ND.
+  - split; [constructor|]. split; [assumption|]. intros x [].
+  - inversion ND; subst. destruct (IH H2) as (N1 & N2 & D). split.
+    + constructor; [intros C; apply H1, in_or_app; now left | assumption].
+    + split; [assumption|]. intros x [->|Hx]; [intros C; apply H1, in_or_app; now right | now apply D].
+Qed.
+
+Lemma NoDup_app_comm_parts_inv {A} (l1 l2 : list A) :
+  NoDup l1 -> NoDup l2 -> (forall x, In x l1 -> ~ In x l2) -> NoDup (l1 ++ l2).
+Proof.
+  induction l1 as [|a l1 IH]; cbn [app]; intros N1 N2 D; [assumption|].
+  inversion N1; subst. constructor.
+  - intros C. apply in_app_or in C. destruct C as [C|C]; [contradiction | apply (D a); [now left | assumption]].
+  - apply IH; auto. intros x Hx. apply D. now right.
+Qed.
+
+Ltac sf := repeat (rewrite setf_same || (rewrite setf_other by (auto; congruence))); cbn [h_next h_prev h_in].
+
+Lemma push_back_ok hs L l x :
+  repr hs L l -> x <> 0 -> hs x = hook0 -> ~ In x l ->
+  exists hs' L', push_back hs L x = Ok (hs', L') /\ repr hs' L' (l ++ [x]) /\
+                 (forall y, y <> x -> ~ In y l -> hs' y = hs y).
+Proof.
+  intros (Hf & Hb & S & ND) Hx Hh Hn.
+  unfold push_back. rewrite (isnull_false x Hx). cbn [negb assert bind].
+  rewrite (H_nz hs x Hx). cbn [bind]. rewrite Hh. cbn [hook0 h_in h_next h_prev negb isnull Nat.eqb assert bind].
+  destruct l as [|a l0] eqn:El.
+  - cbn [hd last] in Hf, Hb. rewrite Hb. cbn [isnull Nat.eqb bind l_front].
+    rewrite (set_in_nz _ _ _ Hx). cbn [bind]. rewrite Hh. cbn [hook0 h_next h_prev].
+    do 2 eexists. split; [reflexivity|]. split.
+    + repeat split; cbn [app l_front l_back hd last seg]; rewrite ?setf_same; cbn; auto.
+      constructor; [intros []|constructor].
+    + intros y Hy _. now apply setf_other.
+  - rewrite <- El in *. assert (NE : l <> []) by (subst; congruence).
+    destruct (exists_last NE) as (r & b & Er). rewrite Er in *. clear El NE.
+    rewrite last_last in Hb.
+    pose proof S as S0. apply seg_app in S. destruct S as (S1 & S2). cbn [seg hd] in S1, S2.
+    destruct S2 as (Hbz & Hbp & Hbi & Hbn & _).
+    rewrite Hb. rewrite (isnull_false b Hbz).
+    rewrite (set_prev_nz _ _ _ Hx). cbn [bind].
+    rewrite (set_next_nz _ _ _ Hbz). cbn [bind].
+    rewrite (set_in_nz _ _ _ Hx). cbn [bind l_front].
+    assert (Hxb : x <> b) by (intros ->; apply Hn, in_or_app; right; now left).
+    assert (Hbx : b <> x) by congruence.
+    assert (Nbr : ~ In b r) by (apply NoDup_remove_2 in ND; now rewrite app_nil_r in ND).
+    do 2 eexists. split; [reflexivity|]. split.
+    + split; [|split; [|split]]; cbn [l_front l_back].
+      * rewrite Hf. destruct r; reflexivity.
+      * now rewrite last_last.
+      * apply seg_app. split.
+        -- cbn [hd]. apply seg_setf_notin; [exact Hn|].
+           apply seg_set_last_next with (q := 0); [|exact Nbr].
+           apply seg_setf_notin; [exact Hn | exact S0].
+        -- rewrite last_last. cbn [seg hd]. sf. rewrite Hh. cbn. repeat split; auto.
+      * apply NoDup_app_snoc; assumption.
+    + intros y Hy Hyl. rewrite setf_other by exact Hy.
+      rewrite setf_other by (intros ->; apply Hyl, in_or_app; right; now left). now rewrite setf_other by exact Hy.
+Qed.
+
+Lemma hd_app_nonnil {A} (l1 l2 : list A) d : l1 <> [] -> hd d (l1 ++ l2) = hd d l1.
+Proof. destruct l1; [congruence | reflexivity]. Qed.
+
+Lemma last_app_cons2 {A} (l : list A) x y r d : last (l ++ x :: y :: r) d = last (l ++ y :: r) d.
+Proof. now rewrite !last_app_cons. Qed.
+
+Lemma seg_cons hs p x r q :
+  seg hs p (x :: r) q <-> x <> 0 /\ h_prev (hs x) = p /\ h_in (hs x) = true /\ h_next (hs x) = hd q r /\ seg hs x r q.
+Proof. reflexivity. Qed.
+
+Lemma seg_set_head_prev' hs p p' y r q n i :
+  seg hs p (y :: r) q -> ~ In y r -> n = h_next (hs y) -> i = h_in (hs y) ->
+  seg (setf hs y (mk_hook n p' i)) p' (y :: r) q.
+Proof. intros S N -> ->. eapply seg_set_head_prev; eauto. Qed.
+Lemma seg_set_last_next' hs p l y q q' pr i :
+  seg hs p (l ++ [y]) q -> ~ In y l -> pr = h_prev (hs y) -> i = h_in (hs y) ->
+  seg (setf hs y (mk_hook q' pr i)) p (l ++ [y]) q'.
+Proof. intros S N -> ->. eapply seg_set_last_next; eauto. Qed.
+
+Lemma insert_ok hs L la bef l2 x :
+  repr hs L (la ++ bef :: l2) -> x <> 0 -> hs x = hook0 -> ~ In x (la ++ bef :: l2) ->
+  exists hs' L', insert hs L bef x = Ok (hs', L') /\ repr hs' L' (la ++ x :: bef :: l2) /\
+                 (forall y, y <> x -> ~ In y (la ++ bef :: l2) -> hs' y = hs y).
+Proof.
+  intros R Hx Hh Hn. pose proof R as (Hf & Hb & S & ND).
+  assert (Hbefz : bef <> 0) by (eapply seg_nonzero; [exact S | apply in_or_app; right; now left]).
+  unfold insert. rewrite (isnull_false bef Hbefz).
+  destruct la as [|a la0] eqn:Ela.
+  - cbn [app hd] in *. rewrite Hf, Nat.eqb_refl. apply push_front_ok; assumption.
+  - rewrite <- Ela in *. assert (NE : la <> []) by (subst; congruence).
+    destruct (exists_last NE) as (l1 & pv & E1). rewrite E1 in *. clear Ela NE.
+    destruct (NoDup_app_comm_parts _ _ ND) as (ND1 & ND2 & Dj).
+    assert (Hfb : Nat.eqb bef (l_front L) = false).
+    { apply Nat.eqb_neq. rewrite Hf. rewrite hd_app_nonnil by (destruct l1; discriminate).
+      intros C. apply (Dj bef); [|now left].
+      rewrite C. destruct l1; cbn; auto. }
+    rewrite Hfb.
+    rewrite (isnull_false x Hx). cbn [negb assert bind].
+    rewrite (H_nz hs x Hx). cbn [bind]. rewrite Hh. cbn [hook0 h_in h_next h_prev negb isnull Nat.eqb assert bind].
+    rewrite (H_nz hs bef Hbefz). cbn [bind].
+    apply seg_app in S. destruct S as (S1 & S2). cbn [hd] in S1. rewrite last_last in S2.
+    pose proof S2 as S2'. destruct S2' as (_ & Hbp & Hbi & Hbn & S3).
+    pose proof S1 as S1'. apply seg_app in S1'. destruct S1' as (_ & S1b). cbn [seg hd] in S1b.
+    destruct S1b as (Hpz & Hpp & Hpi & Hpn & _).
+    rewrite Hbp. rewrite (H_nz hs pv Hpz). cbn [bind]. rewrite Hpn.
+    rewrite (set_next_nz _ _ _ Hpz). cbn [bind].
+    rewrite (set_prev_nz _ _ _ Hbefz). cbn [bind].
+    rewrite (set_prev_nz _ _ _ Hx). cbn [bind].
+    rewrite (set_next_nz _ _ _ Hx). cbn [bind].
+    rewrite (set_in_nz _ _ _ Hx). cbn [bind].
+    assert (Hx1 : ~ In x (l1 ++ [pv])) by (intros C; apply Hn, in_or_app; now left).
+    assert (Hx2 : ~ In x (bef :: l2)) by (intros C; apply Hn, in_or_app; now right).
+    assert (Hxp : x <> pv) by (intros ->; apply Hx1, in_or_app; right; now left).
+    assert (Hxb : x <> bef) by (intros ->; apply Hx2; now left).
+    assert (Hpb : pv <> bef) by (intros ->; apply (Dj bef); [apply in_or_app; right; now left | now left]).
+    assert (Np : ~ In pv l1) by (apply NoDup_remove_2 in ND1; now rewrite app_nil_r in ND1).
+    assert (Nb : ~ In bef l2) by (inversion ND2; assumption).
+    do 2 eexists. split; [reflexivity|]. split.
+    + split; [|split; [|split]].
+      * rewrite Hf. rewrite (hd_app_nonnil (l1 ++ [pv]) (bef :: l2)), (hd_app_nonnil (l1 ++ [pv]) (x :: bef :: l2)) by (destruct l1; discriminate). reflexivity.
+      * rewrite Hb. symmetry. apply last_app_cons2.
+      * apply seg_app. split.
+        -- cbn [hd].
+           do 3 (apply seg_setf_notin; [exact Hx1|]).
+           apply seg_setf_notin; [intros C; apply (Dj bef C); now left|].
+           apply seg_set_last_next with (q := bef); [exact S1 | exact Np].
+        -- rewrite last_last. apply seg_cons. split; [exact Hx|]. sf. rewrite Hh. cbn [hook0 h_in hd].
+           split; [reflexivity|]. split; [reflexivity|]. split; [reflexivity|].
+           do 3 (apply seg_setf_notin; [exact Hx2|]).
+           apply seg_set_head_prev' with (p := pv); [|exact Nb|now sf|now sf].
+           apply seg_setf_notin; [intros C; apply (Dj pv); [apply in_or_app; right; now left | exact C]|].
+           exact S2.
+      * apply NoDup_app_comm_parts_inv.
+        -- exact ND1.
+        -- constructor; [exact Hx2 | exact ND2].
+        -- intros y Hy [->|C]; [contradiction | now apply (Dj y)].
+    + intros y Hy Hyl.
+      assert (y <> pv) by (intros ->; apply Hyl, in_or_app; left; apply in_or_app; right; now left).
+      assert (y <> bef) by (intros ->; apply Hyl, in_or_app; right; now left).
+      now sf.
+Qed.
+
+Lemma rev_case {A} (l : list A) : l = [] \/ exists l' x, l = l' ++ [x].
+Proof.
+  destruct l as [|a l0] eqn:E; [now left|]. right. rewrite <- E.
+  assert (NE : l <> []) by (subst; discriminate).
+  destruct (exists_last NE) as (l' & x & ->). eauto.
+Qed.
+
+Lemma isnull_0 : isnull 0 = true.
+Proof. reflexivity. Qed.
+Ltac ev := repeat (first [rewrite Nat.eqb_refl | progress cbn [assert bind l_front l_back]]).
+
+Lemma erase_ok hs L l1 x l2 :
+  repr hs L (l1 ++ x :: l2) ->
+  exists hs' L', erase hs L x = Ok (hs', L', x) /\ repr hs' L' (l1 ++ l2) /\ hs' x = hook0 /\
+    (forall y, ~ In y (l1 ++ x :: l2) -> hs' y = hs y).
+Proof.
+  intros (Hf & Hb & S & ND).
+  apply seg_app in S. destruct S as (S1 & S2). cbn [hd] in S1.
+  pose proof S2 as (Hx & Hxp & Hxi & Hxn & S3).
+  destruct (NoDup_app_comm_parts _ _ ND) as (ND1 & ND2 & Dj).
+  assert (Nx2 : ~ In x l2) by (inversion ND2; assumption).
+  assert (ND2' : NoDup l2) by (inversion ND2; assumption).
+  assert (Nx1 : ~ In x l1) by (intros C; apply (Dj x C); now left).
+  unfold erase. rewrite (isnull_false x Hx). cbn [negb assert bind].
+  rewrite (H_nz hs x Hx). cbn [bind]. rewrite Hxi. cbn [assert bind]. rewrite Hxn, Hxp.
+  rewrite last_app_cons in Hb.
+  destruct l2 as [|n l2']; destruct (rev_case l1) as [E1|(l1' & pv & E1)]; subst l1.
+  - (* only element *)
+    cbn [hd last app] in *. rewrite Hb, Hf. rewrite ?isnull_0. ev.
+    ev.
+    rewrite (set_next_nz _ _ _ Hx). cbn [bind]. rewrite (set_prev_nz _ _ _ Hx). cbn [bind].
+    rewrite (set_in_nz _ _ _ Hx). cbn [bind].
+    do 2 eexists. split; [reflexivity|]. split; [|split].
+    + repeat split; cbn; auto; constructor.
+    + now sf.
+    + intros y Hy. assert (y <> x) by (intros ->; apply Hy; now left). now sf.
+  - (* last element, with a predecessor *)
+    rewrite last_last in *. cbn [hd last] in *. rewrite app_nil_r.
+    pose proof S1 as S1'. apply seg_app in S1'. destruct S1' as (_ & S1b). cbn [seg hd] in S1b.
+    destruct S1b as (Hpz & Hpp & Hpi & Hpn & _).
+    assert (Hpx : pv <> x) by (intros ->; apply Nx1, in_or_app; right; now left).
+    assert (Np : ~ In pv l1') by (apply NoDup_remove_2 in ND1; now rewrite app_nil_r in ND1).
+    rewrite Hb. rewrite ?isnull_0. ev.
+    rewrite (isnull_false pv Hpz). rewrite (H_nz hs pv Hpz). cbn [bind]. rewrite Hpn. ev.
+    rewrite (set_next_nz _ _ _ Hpz). cbn [bind]. ev.
+    rewrite (set_next_nz _ _ _ Hx). cbn [bind]. rewrite (set_prev_nz _ _ _ Hx). cbn [bind].
+    rewrite (set_in_nz _ _ _ Hx). cbn [bind].
+    do 2 eexists. split; [reflexivity|]. split; [|split].
+    + split; [|split; [|split]]; cbn [l_front l_back].
+      * rewrite Hf. now rewrite hd_app_nonnil by (destruct l1'; discriminate).
+      * now rewrite last_last.
+      * do 3 (apply seg_setf_notin; [exact Nx1|]).
+        apply seg_set_last_next' with (q := x); [exact S1 | exact Np | reflexivity | reflexivity].
+      * exact ND1.
+    + now sf.
+    + intros y Hy. assert (y <> x) by (intros ->; apply Hy, in_or_app; right; now left).
+      assert (y <> pv) by (intros ->; apply Hy, in_or_app; left; apply in_or_app; right; now left). now sf.
+  - (* first element, with a successor *)
+    cbn [hd last app] in *. destruct S3 as (Hnz & Hnp & Hni & Hnn & S4).
+    assert (Hnx : n <> x) by (intros ->; apply Nx2; now left).
+    assert (Nn : ~ In n l2') by (inversion ND2'; assumption).
+    rewrite (isnull_false n Hnz). rewrite (H_nz hs n Hnz). cbn [bind]. rewrite Hnp. ev.
+    rewrite (set_prev_nz _ _ _ Hnz). cbn [bind]. rewrite ?isnull_0, Hf. ev.
+    ev.
+    rewrite (set_next_nz _ _ _ Hx). cbn [bind]. rewrite (set_prev_nz _ _ _ Hx). cbn [bind].
+    rewrite (set_in_nz _ _ _ Hx). cbn [bind].
+    do 2 eexists. split; [reflexivity|]. split; [|split].
+    + split; [|split; [|split]]; cbn [l_front l_back hd].
+      * reflexivity.
+      * exact Hb.
+      * do 3 (apply seg_setf_notin; [exact Nx2|]).
+        apply seg_set_head_prev' with (p := x); [|exact Nn|reflexivity|reflexivity].
+        apply seg_cons. repeat split; assumption.
+      * exact ND2'.
+    + now sf.
+    + intros y Hy. assert (y <> x) by (intros ->; apply Hy; now left).
+      assert (y <> n) by (intros ->; apply Hy; right; now left). now sf.
+  - (* in the middle *)
+    rewrite last_last in *. cbn [hd] in *. destruct S3 as (Hnz & Hnp & Hni & Hnn & S4).
+    pose proof S1 as S1'. apply seg_app in S1'. destruct S1' as (_ & S1b). cbn [seg hd] in S1b.
+    destruct S1b as (Hpz & Hpp & Hpi & Hpn & _).
+    assert (Hnx : n <> x) by (intros ->; apply Nx2; now left).
+    assert (Nn : ~ In n l2') by (inversion ND2'; assumption).
+    assert (Hpx : pv <> x) by (intros ->; apply Nx1, in_or_app; right; now left).
+    assert (Np : ~ In pv l1') by (apply NoDup_remove_2 in ND1; now rewrite app_nil_r in ND1).
+    assert (Hpn' : pv <> n) by (intros ->; apply (Dj n); [apply in_or_app; right; now left | right; now left]).
+    rewrite (isnull_false n Hnz). rewrite (H_nz hs n Hnz). cbn [bind]. rewrite Hnp. ev.
+    rewrite (set_prev_nz _ _ _ Hnz). cbn [bind].
+    rewrite (isnull_false pv Hpz). rewrite (H_nz _ pv Hpz). cbn [bind]. sf. rewrite Hpn. ev.
+    rewrite (set_next_nz _ _ _ Hpz). cbn [bind]. ev.
+    rewrite (set_next_nz _ _ _ Hx). cbn [bind]. rewrite (set_prev_nz _ _ _ Hx). cbn [bind].
+    rewrite (set_in_nz _ _ _ Hx). cbn [bind].
+    do 2 eexists. split; [reflexivity|]. split; [|split].
+    + split; [|split; [|split]]; cbn [l_front l_back].
+      * rewrite Hf. now rewrite (hd_app_nonnil (l1' ++ [pv]) (x :: n :: l2')), (hd_app_nonnil (l1' ++ [pv]) (n :: l2')) by (destruct l1'; discriminate).
+      * rewrite Hb. now rewrite last_app_cons.
+      * apply seg_app. split.
+        -- cbn [hd]. do 3 (apply seg_setf_notin; [exact Nx1|]).
+           apply seg_set_last_next' with (q := x); [|exact Np|now sf|now sf].
+           apply seg_setf_notin; [intros C; apply (Dj n C); right; now left | exact S1].
+        -- rewrite last_last. do 3 (apply seg_setf_notin; [exact Nx2|]).
+           apply seg_setf_notin; [intros C; apply (Dj pv); [apply in_or_app; right; now left | now right]|].
+           apply seg_set_head_prev' with (p := x); [|exact Nn|reflexivity|reflexivity].
+           apply seg_cons. repeat split; assumption.
+      * apply NoDup_app_comm_parts_inv; [exact ND1 | exact ND2'|].
+        intros y Hy C. apply (Dj y Hy). now right.
+    + now sf.
+    + intros y Hy. assert (y <> x) by (intros ->; apply Hy, in_or_app; right; now left).
+      assert (y <> n) by (intros ->; apply Hy, in_or_app; right; right; now left).
+      assert (y <> pv) by (intros ->; apply Hy, in_or_app; left; apply in_or_app; right; now left). now sf.
+Qed.
+
+Lemma repr_nil_il0 hs O : repr hs O [] -> O = il0.
+Proof. intros (Hf & Hb & _). destruct O as [f b]. cbn in *. now subst. Qed.
+
+Lemma splice_ok hs L O l m :
+  repr hs L l -> repr hs O m -> (forall x, In x l -> ~ In x m) ->
+  exists hs' L', splice hs L 0 O = Ok (hs', L', il0) /\ repr hs' L' (l ++ m) /\
+                 (forall y, ~ In y (l ++ m) -> hs' y = hs y).
+Proof.
+  intros RL RO Dj. pose proof RL as (Hf & Hb & S & ND). pose proof RO as (Of & Ob & OS & OND).
+  unfold splice. rewrite isnull_0. ev.
+  destruct m as [|b m'].
+  - cbn [hd] in Of. rewrite Of, isnull_0. rewrite (repr_nil_il0 hs O RO).
+    do 2 eexists. split; [reflexivity|]. rewrite app_nil_r. split; [exact RL | reflexivity].
+  - cbn [hd] in Of. pose proof OS as (Hbz & Hbp & Hbi & Hbn & OS').
+    rewrite Of, (isnull_false b Hbz). rewrite (H_nz hs b Hbz). cbn [bind]. rewrite Hbi, Hbp, isnull_0. ev.
+    assert (Nb : ~ In b m') by (inversion OND; assumption).
+    destruct (rev_case l) as [El|(l' & t & El)]; subst l.
+    + cbn [last hd app] in *. rewrite Hb, isnull_0. ev.
+      do 2 eexists. split; [reflexivity|]. split; [|reflexivity].
+      split; [|split; [|split]]; cbn [l_front l_back hd]; auto.
+    + rewrite last_last in Hb. pose proof S as S'. apply seg_app in S'. destruct S' as (_ & St). cbn [seg hd] in St.
+      destruct St as (Htz & Htp & Hti & Htn & _).
+      assert (Htb : t <> b) by (intros ->; apply (Dj b); [apply in_or_app; right; now left | now left]).
+      assert (Nt : ~ In t l') by (apply NoDup_remove_2 in ND; now rewrite app_nil_r in ND).
+      rewrite Hb, (isnull_false t Htz).
+      rewrite (set_prev_nz _ _ _ Hbz). cbn [bind]. rewrite (set_next_nz _ _ _ Htz). ev.
+      do 2 eexists. split; [reflexivity|]. split.
+      * split; [|split; [|split]]; cbn [l_front l_back].
+        -- rewrite Hf. now rewrite (hd_app_nonnil (l' ++ [t]) (b :: m')) by (destruct l'; discriminate).
+        -- rewrite Ob. now rewrite last_app_cons.
+        -- apply seg_app. split.
+           ++ cbn [hd]. apply seg_set_last_next' with (q := 0); [|exact Nt|now sf|now sf].
+              apply seg_setf_notin; [intros C; apply (Dj b C); now left | exact S].
+           ++ rewrite last_last. apply seg_setf_notin; [intros C; apply (Dj t); [apply in_or_app; right; now left | exact C]|].
+              apply seg_set_head_prev' with (p := 0); [exact OS | exact Nb | reflexivity | reflexivity].
+        -- apply NoDup_app_comm_parts_inv; assumption.
+      * intros y Hy. assert (y <> t) by (intros ->; apply Hy, in_or_app; left; apply in_or_app; right; now left).
+        assert (y <> b) by (intros ->; apply Hy, in_or_app; right; now left). now sf.
+Qed.
+
+Lemma pop_front_ok hs L x l :
+  repr hs L (x :: l) ->
+  exists hs' L', pop_front hs L = Ok (hs', L', x) /\ repr hs' L' l /\ hs' x = hook0 /\
+    (forall y, ~ In y (x :: l) -> hs' y = hs y).
+Proof.
+  intros R. pose proof R as (Hf & _ & S & _). cbn [hd] in Hf. destruct S as (Hx & _ & Hi & _).
+  unfold pop_front. rewrite Hf, (H_nz hs x Hx). cbn [bind]. rewrite Hi. ev.
+  apply (erase_ok hs L [] x l R).
+Qed.
+
+Lemma pop_back_ok hs L l x :
+  repr hs L (l ++ [x]) ->
+  exists hs' L', pop_back hs L = Ok (hs', L', x) /\ repr hs' L' l /\ hs' x = hook0 /\
+    (forall y, ~ In y (l ++ [x]) -> hs' y = hs y).
+Proof.
+  intros R. pose proof R as (_ & Hb & S & _). rewrite last_last in Hb.
+  apply seg_app in S. destruct S as (_ & S). cbn [seg] in S. destruct S as (Hx & _ & Hi & _).
+  unfold pop_back. rewrite Hb, (H_nz hs x Hx). cbn [bind]. rewrite Hi. ev.
+  destruct (erase_ok hs L l x [] R) as (hs' & L' & E & R' & Hh & Fr). rewrite app_nil_r in R'. eauto 8.
+Qed.
+
+Lemma clear_ok : forall l fuel hs L, repr hs L l -> length l <= fuel ->
+  exists hs' L', clear fuel hs L = Ok (hs', L') /\ repr hs' L' [] /\
+    (forall x, In x l -> hs' x = hook0) /\ (forall y, ~ In y l -> hs' y = hs y).
+Proof.
+  induction l as [|x l IH]; intros fuel hs L R F.
+  - pose proof R as (Hf & _). cbn [hd] in Hf.
+    exists hs, L. split; [|split; [exact R | split; [intros x [] | reflexivity]]].
+    destruct fuel; cbn [clear]; unfold il_empty; now rewrite Hf.
+  - pose proof R as (Hf & _ & S & ND). cbn [hd] in Hf. destruct S as (Hx & _).
+    cbn [length] in F. destruct fuel as [|f]; [lia|]. cbn [clear]. unfold il_empty. rewrite Hf, (isnull_false x Hx).
+    destruct (pop_front_ok hs L x l R) as (hs1 & L1 & E1 & R1 & H1 & F1). rewrite E1. cbn [bind].
+    destruct (IH f hs1 L1 R1) as (hs2 & L2 & E2 & R2 & H2 & F2); [lia|].
+    exists hs2, L2. split; [exact E2|]. split; [exact R2|]. split.
+    + intros y [->|Hy]; [|now apply H2].
+      rewrite F2; [exact H1 | inversion ND; assumption].
+    + intros y Hy. rewrite F2 by (intros C; apply Hy; now right). apply F1. exact Hy.
+Qed.
+
+(* ---- the assertions that stop an operation *)
+Lemma push_front_assert hs L x : x = 0 \/ h_in (hs x) = true -> push_front hs L x = AssertStop.
+Proof.
+  intros [->|Hi]; [reflexivity|]. unfold push_front. destruct (Nat.eqb_spec x 0) as [->|Hx]; [reflexivity|].
+  rewrite (isnull_false x Hx). ev. rewrite (H_nz hs x Hx). cbn [bind]. now rewrite Hi.
+Qed.
+Lemma push_back_assert hs L x : x = 0 \/ h_in (hs x) = true -> push_back hs L x = AssertStop.
+Proof.
+  intros [->|Hi]; [reflexivity|]. unfold push_back. destruct (Nat.eqb_spec x 0) as [->|Hx]; [reflexivity|].
+  rewrite (isnull_false x Hx). ev. rewrite (H_nz hs x Hx). cbn [bind]. now rewrite Hi.
+Qed.
+Lemma insert_assert hs L b x : x = 0 \/ h_in (hs x) = true -> insert hs L b x = AssertStop.
+Proof.
+  intros C. unfold insert. destruct (isnull b); [now apply push_back_assert|].
+  destruct (Nat.eqb b (l_front L)); [now apply push_front_assert|].
+  destruct C as [->|Hi]; [reflexivity|]. destruct (Nat.eqb_spec x 0) as [->|Hx]; [reflexivity|].
+  rewrite (isnull_false x Hx). ev. rewrite (H_nz hs x Hx). cbn [bind]. now rewrite Hi.
+Qed.
+Lemma iterator_to_ok hs p : p <> 0 -> h_in (hs p) = true -> iterator_to hs p = Ok p.
+Proof. intros Hp Hi. unfold iterator_to. rewrite (H_nz hs p Hp). cbn [bind]. now rewrite Hi. Qed.
+Lemma iterator_to_assert hs p : p <> 0 -> h_in (hs p) = false -> iterator_to hs p = AssertStop.
+Proof. intros Hp Hi. unfold iterator_to. rewrite (H_nz hs p Hp). cbn [bind]. now rewrite Hi. Qed.
+
+(* ================================================================== refinement to lists (C13) *)
+Definition nlists : nat := 2.
+Definition astate := nat -> list nat.
+Definition as0 : astate := fun _ => [].
+
+Definition inb (x : nat) (l : list nat) : bool := existsb (Nat.eqb x) l.
+Definition memb (als : astate) (x : nat) : bool := existsb (fun k => inb x (als k)) (seq 0 nlists).
+
+Lemma inb_spec x l : inb x l = true <-> In x l.
+Proof. unfold inb. rewrite existsb_exists. split; [intros (y & Hy & E); apply Nat.eqb_eq in E; now subst | intros H; exists x; split; [assumption | apply Nat.eqb_refl]]. Qed.
+
+Definition iinv (st : ist) (als : astate) : Prop :=
+  (forall k, repr (hooks st) (lists st k) (als k)) /\
+  (forall k j x, In x (als k) -> In x (als j) -> k = j) /\
+  (forall x, (forall k, ~ In x (als k)) -> hooks st x = hook0) /\
+  (forall k, nlists <= k -> als k = []).
+
+Lemma memb_spec st (als : astate) x : iinv st als -> (memb als x = true <-> exists k, In x (als k)).
+Proof.
+  intros (_ & _ & _ & Hb). unfold memb. rewrite existsb_exists. split.
+  - intros (k & _ & Hk). exists k. now apply inb_spec.
+  - intros (k & Hk). exists k. split; [|now apply inb_spec].
+    apply in_seq. destruct (Nat.lt_ge_cases k nlists); [lia|]. rewrite (Hb k) in Hk by assumption. destruct Hk.
+Qed.
+
+Lemma memb_in st (als : astate) x : iinv st als -> x <> 0 -> memb als x = h_in (hooks st x).
+Proof.
+  intros I Hx. pose proof I as (R & _ & Z & _). destruct (memb als x) eqn:E.
+  - apply (memb_spec st als x I) in E. destruct E as (k & Hk). destruct (R k) as (_ & _ & S & _).
+    symmetry. eapply seg_in; eauto.
+  - rewrite Z; [reflexivity|]. intros k Hk.
+    assert (memb als x = true) by (apply (memb_spec st als x I); eauto). congruence.
+Qed.
+
+Fixpoint insert_before (b x : nat) (l : list nat) : list nat :=
+  match l with
+  | [] => [x]
+  | y :: r => if Nat.eqb y b then x :: y :: r else y :: insert_before b x r
+  end.
+Fixpoint remove_one (x : nat) (l : list nat) : list nat :=
+  match l with
+  | [] => []
+  | y :: r => if Nat.eqb y x then r else y :: remove_one x r
+  end.
+
+Lemma in_split_first (x : nat) l : In x l -> exists l1 l2, l = l1 ++ x :: l2 /\ ~ In x l1.
+Proof.
+  induction l as [|y r IH]; intros H; [destruct H|].
+  destruct (Nat.eq_dec y x) as [->|N].
+  - exists [], r. split; [reflexivity | intros []].
+  - destruct H as [->|H]; [congruence|]. destruct (IH H) as (l1 & l2 & -> & N1).
+    exists (y :: l1), l2. split; [reflexivity | intros [->|C]; [congruence | contradiction]].
+Qed.
+Lemma insert_before_split b x l1 l2 : ~ In b l1 -> insert_before b x (l1 ++ b :: l2) = l1 ++ x :: b :: l2.
+Proof.
+  induction l1 as [|y l1 IH]; intros N; cbn [app insert_before].
+  - now rewrite Nat.eqb_refl.
+  - destruct (Nat.eqb_spec y b) as [->|_]; [exfalso; apply N; now left|]. rewrite IH; [reflexivity | intros C; apply N; now right].
+Qed.
+Lemma remove_one_split x l1 l2 : ~ In x l1 -> remove_one x (l1 ++ x :: l2) = l1 ++ l2.
+Proof.
+  induction l1 as [|y l1 IH]; intros N; cbn [app remove_one].
+  - now rewrite Nat.eqb_refl.
+  - destruct (Nat.eqb_spec y x) as [->|_]; [exfalso; apply N; now left|]. rewrite IH; [reflexivity | intros C; apply N; now right].
+Qed.
+
+Inductive rres := ROk (als : astate) (o : out) | RAssert | RPre.
+
+(* the reference: the same operation on lists of object ids.  RAssert = the library's assertion stops the
+   operation (documented); RPre = a precondition the library cannot check is violated (excluded). *)
+Definition iref_step (fuel : nat) (als : astate) (o : iop) : rres :=
+  match o with
+  | IPushFront l x =>
+    if negb (Nat.ltb l nlists) then RPre else
+    if Nat.eqb x 0 || memb als x then RAssert else ROk (setf als l (x :: als l)) OUnit
+  | IPushBack l x =>
+    if negb (Nat.ltb l nlists) then RPre else
+    if Nat.eqb x 0 || memb als x then RAssert else ROk (setf als l (als l ++ [x])) OUnit
+  | IInsert l b x =>
+    if negb (Nat.ltb l nlists) then RPre else
+    if Nat.eqb b 0 then
+      if Nat.eqb x 0 || memb als x then RAssert else ROk (setf als l (als l ++ [x])) OUnit
+    else if negb (memb als b) then RAssert
+    else if negb (inb b (als l)) then RPre
+    else if Nat.eqb x 0 || memb als x then RAssert else ROk (setf als l (insert_before b x (als l))) OUnit
+  | IErase l x =>
+    if negb (Nat.ltb l nlists) || Nat.eqb x 0 then RPre else
+    if negb (memb als x) then RAssert else
+    if negb (inb x (als l)) then RPre else ROk (setf als l (remove_one x (als l))) (OVal (N.of_nat x))
+  | IPopFront l =>
+    if negb (Nat.ltb l nlists) then RPre else
+    match als l with [] => RPre | x :: r => ROk (setf als l r) (OVal (N.of_nat x)) end
+  | IPopBack l =>
+    if negb (Nat.ltb l nlists) then RPre else
+    match als l with [] => RPre | _ => ROk (setf als l (removelast (als l))) (OVal (N.of_nat (last (als l) 0))) end
+  | IClear l =>
+    if negb (Nat.ltb l nlists) || negb (Nat.leb (length (als l)) fuel) then RPre else ROk (setf als l []) OUnit
+  | ISplice l m =>
+    if negb (Nat.ltb l nlists) || negb (Nat.ltb m nlists) || Nat.eqb l m then RPre else
+    ROk (setf (setf als l (als l ++ als m)) m []) OUnit
+  end.
+
+(* replacing list k: only hooks of old or new members of k change; new members were members of k or free *)
+Lemma iinv_update st (als : astate) hs' k L' l' :
+  iinv st als -> k < nlists ->
+  repr hs' L' l' ->
+  (forall y, ~ In y (als k) -> ~ In y l' -> hs' y = hooks st y) ->
+  (forall y, In y l' -> In y (als k) \/ (forall j, ~ In y (als j))) ->
+  (forall y, In y (als k) -> ~ In y l' -> hs' y = hook0) ->
+  iinv (mk_ist hs' (setf (lists st) k L')) (setf als k l').
+Proof.
+  intros (R & D & Z & B) Hk R' Fr New Rem. split; [|split; [|split]]; cbn [hooks lists].
+  - intros j. unfold setf. destruct (Nat.eqb_spec j k) as [->|Nj]; [exact R'|].
+    destruct (R j) as (Hf & Hb & S & ND). repeat split; auto.
+    apply seg_frame with (hs := hooks st); [|exact S].
+    intros y Hy. apply Fr.
+    + intros C. apply Nj. eapply D; eauto.
+    + intros C. destruct (New y C) as [C'|C']; [apply Nj; eapply D; eauto | exact (C' j Hy)].
+  - intros i j x. unfold setf. destruct (Nat.eqb_spec i k) as [->|Ni]; destruct (Nat.eqb_spec j k) as [->|Nj]; auto.
+    + intros Hx Hj. destruct (New x Hx) as [C|C]; [eapply D; eauto | destruct (C j Hj)].
+    + intros Hi Hx. destruct (New x Hx) as [C|C]; [eapply D; eauto | destruct (C i Hi)].
+    + apply D.
+  - intros x Hx. destruct (in_dec Nat.eq_dec x (als k)) as [I|N].
+    + apply Rem; [exact I|]. specialize (Hx k). unfold setf in Hx. now rewrite Nat.eqb_refl in Hx.
+    + rewrite Fr; [|exact N|]. 
+      * apply Z. intros j. destruct (Nat.eq_dec j k) as [->|Nj]; [exact N|].
+        specialize (Hx j). unfold setf in Hx. destruct (Nat.eqb_spec j k); [contradiction | exact Hx].
+      * specialize (Hx k). unfold setf in Hx. now rewrite Nat.eqb_refl in Hx.
+  - intros j Hj. unfold setf. destruct (Nat.eqb_spec j k) as [->|_]; [lia | now apply B].
+Qed.
+
+Lemma not_memb st (als : astate) x : iinv st als -> memb als x = false -> forall k, ~ In x (als k).
+Proof. intros I E k Hk. assert (memb als x = true) by (apply (memb_spec st als x I); eauto). congruence. Qed.
+
+Lemma istep_refines fuel st (als : astate) o : iinv st als ->
+  match iref_step fuel als o with
+  | ROk als' out => exists st', istep fuel st o = Ok (st', out) /\ iinv st' als'
+  | RAssert => istep fuel st o = AssertStop
+  | RPre => True
+  end.
+Proof.
+  intros Inv. pose proof Inv as (R & D & Z & B). destruct st as [hs ls]. cbn [hooks lists] in *.
+  destruct o as [l x|l x|l b x|l x|l|l|l|l m]; cbn [iref_step istep hooks lists].
+  - (* push_front *)
+    destruct (Nat.ltb l nlists) eqn:El; cbn [negb]; [apply Nat.ltb_lt in El|exact I].
+    destruct (Nat.eqb_spec x 0) as [->|Hx]; cbn [orb]; [reflexivity|].
+    destruct (memb als x) eqn:Em.
+    + rewrite (memb_in _ _ _ Inv Hx) in Em. cbn [hooks] in Em. now rewrite (push_front_assert hs (ls l) x (or_intror Em)).
+    + pose proof (not_memb _ _ _ Inv Em) as Nm.
+      destruct (push_front_ok hs (ls l) (als l) x (R l) Hx (Z x Nm) (Nm l)) as (hs' & L' & E & R' & Fr).
+      rewrite E. cbn [bind]. eexists. split; [reflexivity|].
+      apply (iinv_update (mk_ist hs ls) als hs' l L' (x :: als l) Inv El R').
+      * intros y N1 N2. apply Fr; [intros ->; apply N2; now left | exact N1].
+      * intros y [->|Hy]; [right; exact Nm | now left].
+      * intros y Hy N. exfalso. apply N. now right.
+  - (* push_back *)
+    destruct (Nat.ltb l nlists) eqn:El; cbn [negb]; [apply Nat.ltb_lt in El|exact I].
+    destruct (Nat.eqb_spec x 0) as [->|Hx]; cbn [orb]; [reflexivity|].
+    destruct (memb als x) eqn:Em.
+    + rewrite (memb_in _ _ _ Inv Hx) in Em. cbn [hooks] in Em. now rewrite (push_back_assert hs (ls l) x (or_intror Em)).
+    + pose proof (not_memb _ _ _ Inv Em) as Nm.
+      destruct (push_back_ok hs (ls l) (als l) x (R l) Hx (Z x Nm) (Nm l)) as (hs' & L' & E & R' & Fr).
+      rewrite E. cbn [bind]. eexists. split; [reflexivity|].
+      apply (iinv_update (mk_ist hs ls) als hs' l L' (als l ++ [x]) Inv El R').
+      * intros y N1 N2. apply Fr; [intros ->; apply N2, in_or_app; right; now left | exact N1].
+      * intros y Hy. apply in_app_or in Hy. destruct Hy as [Hy|[->|[]]]; [now left | right; exact Nm].
+      * intros y Hy N. exfalso. apply N, in_or_app. now left.
+  - (* insert *)
+    destruct (Nat.ltb l nlists) eqn:El; cbn [negb]; [apply Nat.ltb_lt in El|exact I].
+    destruct (Nat.eqb_spec b 0) as [->|Hb].
+    + cbn [isnull Nat.eqb bind]. unfold insert. cbn [isnull Nat.eqb].
+      destruct (Nat.eqb_spec x 0) as [->|Hx]; cbn [orb]; [reflexivity|].
+      destruct (memb als x) eqn:Em.
+      * rewrite (memb_in _ _ _ Inv Hx) in Em. cbn [hooks] in Em. now rewrite (push_back_assert hs (ls l) x (or_intror Em)).
+      * pose proof (not_memb _ _ _ Inv Em) as Nm.
+        destruct (push_back_ok hs (ls l) (als l) x (R l) Hx (Z x Nm) (Nm l)) as (hs' & L' & E & R' & Fr).
+        rewrite E. cbn [bind]. eexists. split; [reflexivity|].
+        apply (iinv_update (mk_ist hs ls) als hs' l L' (als l ++ [x]) Inv El R').
+        -- intros y N1 N2. apply Fr; [intros ->; apply N2, in_or_app; right; now left | exact N1].
+        -- intros y Hy. apply in_app_or in Hy. destruct Hy as [Hy|[->|[]]]; [now left | right; exact Nm].
+        -- intros y Hy N. exfalso. apply N, in_or_app. now left.
+    + rewrite (isnull_false b Hb).
+      destruct (memb als b) eqn:Eb; cbn [negb].
+      2:{ rewrite (memb_in _ _ _ Inv Hb) in Eb. cbn [hooks] in Eb. now rewrite (iterator_to_assert hs b Hb Eb). }
+      pose proof Eb as Eb'. rewrite (memb_in _ _ _ Inv Hb) in Eb'. cbn [hooks] in Eb'.
+      rewrite (iterator_to_ok hs b Hb Eb'). cbn [bind].
+      destruct (inb b (als l)) eqn:Ei; cbn [negb]; [|exact I].
+      apply inb_spec in Ei. destruct (in_split_first b (als l) Ei) as (l1 & l2 & Es & N1).
+      destruct (Nat.eqb_spec x 0) as [->|Hx]; cbn [orb]; [now rewrite (insert_assert hs (ls l) b 0 (or_introl eq_refl))|].
+      destruct (memb als x) eqn:Em.
+      * rewrite (memb_in _ _ _ Inv Hx) in Em. cbn [hooks] in Em. now rewrite (insert_assert hs (ls l) b x (or_intror Em)).
+      * pose proof (not_memb _ _ _ Inv Em) as Nm.
+        pose proof (R l) as Rl. rewrite Es in Rl.
+        assert (Nx : ~ In x (l1 ++ b :: l2)) by (rewrite <- Es; apply Nm).
+        destruct (insert_ok hs (ls l) l1 b l2 x Rl Hx (Z x Nm) Nx) as (hs' & L' & E & R' & Fr).
+        rewrite E. cbn [bind]. eexists. split; [reflexivity|].
+        rewrite Es, (insert_before_split b x l1 l2 N1).
+        assert (Eq : setf als l (l1 ++ x :: b :: l2) = setf als l (l1 ++ x :: b :: l2)) by reflexivity.
+        apply (iinv_update (mk_ist hs ls) als hs' l L' (l1 ++ x :: b :: l2) Inv El R').
+        -- intros y M1 M2. apply Fr; [intros ->; apply M2, in_or_app; right; now left | now rewrite <- Es].
+        -- intros y Hy. apply in_app_or in Hy. rewrite Es.
+           destruct Hy as [Hy|[->|Hy]]; [left; apply in_or_app; now left | right; exact Nm | left; apply in_or_app; now right].
+        -- intros y Hy N. exfalso. apply N. rewrite Es in Hy. apply in_app_or in Hy. apply in_or_app.
+           destruct Hy as [Hy|Hy]; [now left | right; now right].
+  - (* erase *)
+    destruct (Nat.ltb l nlists) eqn:El; cbn [negb orb]; [apply Nat.ltb_lt in El|exact I].
+    destruct (Nat.eqb_spec x 0) as [->|Hx]; [exact I|].
+    destruct (memb als x) eqn:Em; cbn [negb].
+    2:{ rewrite (memb_in _ _ _ Inv Hx) in Em. cbn [hooks] in Em. now rewrite (iterator_to_assert hs x Hx Em). }
+    pose proof Em as Em'. rewrite (memb_in _ _ _ Inv Hx) in Em'. cbn [hooks] in Em'.
+    rewrite (iterator_to_ok hs x Hx Em'). cbn [bind].
+    destruct (inb x (als l)) eqn:Ei; cbn [negb]; [|exact I].
+    apply inb_spec in Ei. destruct (in_split_first x (als l) Ei) as (l1 & l2 & Es & N1).
+    pose proof (R l) as Rl. rewrite Es in Rl.
+    destruct (erase_ok hs (ls l) l1 x l2 Rl) as (hs' & L' & E & R' & Hh & Fr).
+    rewrite E. cbn [bind]. eexists. split; [reflexivity|].
+    rewrite Es, (remove_one_split x l1 l2 N1).
+    destruct Rl as (_ & _ & _ & NDl).
+    apply (iinv_update (mk_ist hs ls) als hs' l L' (l1 ++ l2) Inv El R').
+    + intros y M1 M2. apply Fr. now rewrite <- Es.
+    + intros y Hy. left. rewrite Es. apply in_app_or in Hy. apply in_or_app. destruct Hy; [now left | right; now right].
+    + intros y Hy N. rewrite Es in Hy. apply in_app_or in Hy.
+      destruct Hy as [Hy|[->|Hy]]; [exfalso; apply N, in_or_app; now left | exact Hh | exfalso; apply N, in_or_app; now right].
+  - (* pop_front *)
+    destruct (Nat.ltb l nlists) eqn:El; cbn [negb]; [apply Nat.ltb_lt in El|exact I].
+    destruct (als l) as [|x r] eqn:Es; [exact I|].
+    pose proof (R l) as Rl. rewrite Es in Rl.
+    destruct (pop_front_ok hs (ls l) x r Rl) as (hs' & L' & E & R' & Hh & Fr).
+    rewrite E. cbn [bind]. eexists. split; [reflexivity|].
+    destruct Rl as (_ & _ & _ & NDl).
+    apply (iinv_update (mk_ist hs ls) als hs' l L' r Inv El R').
+    + intros y M1 M2. apply Fr. now rewrite <- Es.
+    + intros y Hy. left. rewrite Es. now right.
+    + intros y Hy N. rewrite Es in Hy. destruct Hy as [->|Hy]; [exact Hh | contradiction].
+  - (* pop_back *)
+    destruct (Nat.ltb l nlists) eqn:El; cbn [negb]; [apply Nat.ltb_lt in El|exact I].
+    destruct (als l) as [|a r0] eqn:Es; [exact I|]. rewrite <- Es.
+    assert (NE : als l <> []) by (rewrite Es; discriminate).
+    destruct (exists_last NE) as (r & x & Er). clear Es a r0.
+    pose proof (R l) as Rl. rewrite Er in Rl. rewrite Er, last_last, removelast_last.
+    destruct (pop_back_ok hs (ls l) r x Rl) as (hs' & L' & E & R' & Hh & Fr).
+    rewrite E. cbn [bind]. eexists. split; [reflexivity|].
+    apply (iinv_update (mk_ist hs ls) als hs' l L' r Inv El R').
+    + intros y M1 M2. apply Fr. now rewrite <- Er.
+    + intros y Hy. left. rewrite Er. apply in_or_app. now left.
+    + intros y Hy N. rewrite Er in Hy. apply in_app_or in Hy. destruct Hy as [Hy|[->|[]]]; [contradiction | exact Hh].
+  - (* clear *)
+    destruct (Nat.ltb l nlists) eqn:El; cbn [negb orb]; [apply Nat.ltb_lt in El|exact I].
+    destruct (Nat.leb (length (als l)) fuel) eqn:Ef; cbn [negb]; [apply Nat.leb_le in Ef|exact I].
+    destruct (clear_ok (als l) fuel hs (ls l) (R l) Ef) as (hs' & L' & E & R' & Hh & Fr).
+    rewrite E. cbn [bind]. eexists. split; [reflexivity|].
+    apply (iinv_update (mk_ist hs ls) als hs' l L' [] Inv El R').
+    + intros y M1 _. now apply Fr.
+    + intros y [].
+    + intros y Hy _. now apply Hh.
+  - (* splice *)
+    destruct (Nat.ltb l nlists) eqn:El; cbn [negb orb]; [apply Nat.ltb_lt in El|exact I].
+    destruct (Nat.ltb m nlists) eqn:Em; cbn [negb orb]; [apply Nat.ltb_lt in Em|exact I].
+    destruct (Nat.eqb_spec l m) as [->|Nlm]; [exact I|].
+    assert (Dj : forall x, In x (als l) -> ~ In x (als m)) by (intros x H1 H2; apply Nlm; eapply D; eauto).
+    destruct (splice_ok hs (ls l) (ls m) (als l) (als m) (R l) (R m) Dj) as (hs' & L' & E & R' & Fr).
+    rewrite E. cbn [bind]. eexists. split; [reflexivity|].
+    assert (Nml : m <> l) by congruence.
+    split; [|split; [|split]]; cbn [hooks lists].
+    + intros j. unfold setf. destruct (Nat.eqb_spec j m) as [->|Njm].
+      * repeat split; cbn; auto. constructor.
+      * destruct (Nat.eqb_spec j l) as [->|Njl]; [exact R'|].
+        destruct (R j) as (Hf & Hb & S & ND). repeat split; auto.
+        apply seg_frame with (hs := hs); [|exact S].
+        intros y Hy. apply Fr. intros C. apply in_app_or in C. destruct C as [C|C]; [apply Njl | apply Njm]; eapply D; eauto.
+    + intros i j x. unfold setf.
+      destruct (Nat.eqb_spec i m) as [->|Nim]; [intros []|].
+      destruct (Nat.eqb_spec j m) as [->|Njm]; [intros _ []|].
+      destruct (Nat.eqb_spec i l) as [->|Nil]; destruct (Nat.eqb_spec j l) as [->|Njl]; auto.
+      * intros Hx Hj. apply in_app_or in Hx. destruct Hx as [Hx|Hx]; [eapply D; eauto | exfalso; apply Njm; eapply D; eauto].
+      * intros Hi Hx. apply in_app_or in Hx. destruct Hx as [Hx|Hx]; [eapply D; eauto | exfalso; apply Nim; eapply D; eauto].
+      * apply D.
+    + intros x Hx. rewrite Fr.
+      * apply Z. intros j Hj. destruct (Nat.eq_dec j m) as [->|Njm].
+        -- apply (Hx l). unfold setf. rewrite (proj2 (Nat.eqb_neq l m) Nlm), Nat.eqb_refl. apply in_or_app. now right.
+        -- destruct (Nat.eq_dec j l) as [->|Njl].
+           ++ apply (Hx l). unfold setf. rewrite (proj2 (Nat.eqb_neq l m) Nlm), Nat.eqb_refl. apply in_or_app. now left.
+           ++ apply (Hx j). unfold setf. now rewrite (proj2 (Nat.eqb_neq j m) Njm), (proj2 (Nat.eqb_neq j l) Njl).
+      * specialize (Hx l). unfold setf in Hx. now rewrite (proj2 (Nat.eqb_neq l m) Nlm), Nat.eqb_refl in Hx.
+    + intros j Hj. unfold setf. destruct (Nat.eqb_spec j m); [reflexivity|]. destruct (Nat.eqb_spec j l); [lia | now apply B].
+Qed.
+
+Inductive rfin := RDone (als : astate) | RStopAssert | RStopPre.
+
+Fixpoint iref_run (fuel : nat) (als : astate) (ops : list iop) : list out * rfin :=
+  match ops with
+  | [] => ([], RDone als)
+  | o :: r =>
+    match iref_step fuel als o with
+    | ROk als1 x => let '(xs, f) := iref_run fuel als1 r in (x :: xs, f)
+    | RAssert => ([], RStopAssert)
+    | RPre => ([], RStopPre)
+    end
+  end.
+
+Lemma irun_refines fuel : forall ops st (als : astate), iinv st als ->
+  match iref_run fuel als ops with
+  | (outs, RDone als') => exists st', irun fuel st ops = Ok (st', outs) /\ iinv st' als'
+  | (_, RStopAssert) => irun fuel st ops = AssertStop
+  | (_, RStopPre) => True
+  end.
+Proof.
+  induction ops as [|o ops IH]; intros st als Inv; cbn [iref_run irun].
+  - eexists. split; [reflexivity | exact Inv].
+  - pose proof (istep_refines fuel st als o Inv) as Hs.
+    destruct (iref_step fuel als o) as [als1 x| |]; [|now rewrite Hs | exact I].
+    destruct Hs as (st1 & E1 & Inv1). rewrite E1. cbn [bind].
+    specialize (IH st1 als1 Inv1). destruct (iref_run fuel als1 ops) as [xs [als2| |]].
+    + destruct IH as (st2 & E2 & Inv2). rewrite E2. cbn [bind]. eexists. split; [reflexivity | exact Inv2].
+    + now rewrite IH.
+    + exact I.
+Qed.
+
+Lemma iinv0 : iinv ist0 as0.
+Proof.
+  split; [|split; [|split]]; cbn.
+  - intros k. repeat split; cbn; auto. constructor.
+  - intros k j x [].
+  - reflexivity.
+  - reflexivity.
+Qed.
+
+(* what the invariant says about the links (C13_intrusive_links) *)
+Lemma links_adjacent hs p q l1 a b l2 :
+  seg hs p (l1 ++ a :: b :: l2) q -> h_next (hs a) = b /\ h_prev (hs b) = a.
+Proof.
+  intros S. apply seg_app in S. destruct S as (_ & S). apply seg_cons in S.
+  destruct S as (_ & _ & _ & Hn & S). apply seg_cons in S. destruct S as (_ & Hp & _). now split.
+Qed.
+Lemma links_ends hs L l : repr hs L l -> l <> [] ->
+  h_prev (hs (l_front L)) = 0 /\ h_next (hs (l_back L)) = 0 /\ l_front L <> 0 /\ l_back L <> 0.
+Proof.
+  intros (Hf & Hb & S & _) NE. destruct (exists_last NE) as (r & y & ->).
+  rewrite Hb, last_last. pose proof S as S'. apply seg_app in S'. destruct S' as (_ & S2). cbn [seg hd] in S2.
+  destruct S2 as (Hy & _ & _ & Hn & _).
+  rewrite Hf. destruct r as [|x r']; cbn [app hd] in *.
+  - destruct S as (_ & Hp & _). auto.
+  - destruct S as (Hx & Hp & _). auto.
+Qed.
+
+Lemma iinv_links st (als : astate) fuel k : iinv st als -> length (als k) <= fuel ->
+  walk fuel (hooks st) (l_front (lists st k)) = Ok (als k) /\
+  walk_back fuel (hooks st) (l_back (lists st k)) = Ok (rev (als k)) /\
+  (forall l1 a b l2, als k = l1 ++ a :: b :: l2 ->
+     h_next (hooks st a) = b /\ h_prev (hooks st b) = a) /\
+  (als k <> [] -> h_prev (hooks st (l_front (lists st k))) = 0 /\ h_next (hooks st (l_back (lists st k))) = 0) /\
+  (il_empty (lists st k) = true <-> als k = []).
+Proof.
+  intros Inv F. pose proof Inv as (R & _). destruct (R k) as (Hf & Hb & S & ND).
+  split; [rewrite Hf; now apply walk_seg with (p := 0)|].
+  split; [rewrite Hb; now apply walk_back_repr|].
+  split; [intros l1 a b l2 E; rewrite E in S; eapply links_adjacent; eauto|].
+  split; [intros NE; destruct (links_ends _ _ _ (R k) NE) as (A & B & _); auto|].
+  unfold il_empty, isnull. rewrite Hf. destruct (als k) as [|x r]; cbn [hd].
+  - split; reflexivity.
+  - destruct S as (Hx & _). split; [intros E; apply Nat.eqb_eq in E; contradiction | discriminate].
+Qed.
+
+Lemma iinv_members st (als : astate) x : iinv st als -> x <> 0 ->
+  (h_in (hooks st x) = true <-> exists k, In x (als k)) /\
+  ((forall k, ~ In x (als k)) -> hooks st x = hook0).
+Proof.
+  intros Inv Hx. split.
+  - rewrite <- (memb_in st als x Inv Hx). apply (memb_spec st als x Inv).
+  - destruct Inv as (_ & _ & Z & _). apply Z.
+Qed.
